@@ -6,9 +6,9 @@ import "strings"
 
 func c06Bounds(tier int) (n, wide int) {
 	if tier > 0 {
-		return 4, 3
+		return 4, 4
 	}
-	return 3, 1
+	return 3, 2
 }
 
 // QuoteString(s) scans as exactly one string literal with value s.
